@@ -752,9 +752,12 @@ def _crawl_directory_data_space(root, project, schema_function):
             del dirs[:]  # skip sub-directories
             job = project.open_job(sp)
             dst = job.path
-            if os.path.realpath(path) == os.path.realpath(dst):
+            real_path = os.path.realpath(path)
+            if real_path == os.path.realpath(dst):
                 continue  # skip (already part of the data space)
-            elif os.path.realpath(path).startswith(workspace_real_path):
+            elif real_path == workspace_real_path or real_path.startswith(
+                workspace_real_path + os.path.sep
+            ):
                 continue  # skip (part of the project's workspace)
             yield path, job
 
